@@ -230,13 +230,24 @@ def run_constraint(case, ctx: Ctx):
     ctx.check("contain.finite", bool(np.isfinite(t_np[need_finite]).all()),
               f"non-finite constrained value for finite raw: raw={R[need_finite][~np.isfinite(t_np[need_finite])][:3]}")
     L_, H_ = np.broadcast_to(lo_b, full_shape), np.broadcast_to(hi_b, full_shape)
-    bad = ~(t_np >= L_)
-    ctx.check("contain.lower", not bad.any(), f"value below the lower bound: raw={R[bad][:3]} value={t_np[bad][:3]} lower={L_[bad][:3]}")
-    bad = ~(t_np <= H_)
-    ctx.check("contain.upper", not bad.any(), f"value above the upper bound: raw={R[bad][:3]} value={t_np[bad][:3]} upper={H_[bad][:3]}")
-    ctx.check("check_raw.finite_raw", bool(chk_raw), f"check_raw refuses finite raw values {raws[:4]}")
-    if bool(np.isfinite(t_np).all()):
-        ctx.check("check.transformed", bool(chk), "check(transform(raw)) is False")
+    # closed containment is asserted exactly; an excess within the closed-form tolerance (rounding of lower + s * (upper - lower)
+    # at saturation) is reported under its own assertion name so that it cannot hide a real containment failure
+    with np.errstate(invalid="ignore"):
+        tol_lo = np.where(np.isfinite(L_), 1e-9 * np.abs(L_) + 1e-11 * scale, 0.0)
+        tol_hi = np.where(np.isfinite(H_), 1e-9 * np.abs(H_) + 1e-11 * scale, 0.0)
+        bad_lo, gross_lo = ~(t_np >= L_), ~(t_np >= L_ - tol_lo)
+        bad_hi, gross_hi = ~(t_np <= H_), ~(t_np <= H_ + tol_hi)
+    ctx.check("contain.lower", not gross_lo.any(), f"value below the lower bound: raw={R[gross_lo][:3]} value={t_np[gross_lo][:3]} lower={L_[gross_lo][:3]}")
+    ctx.check("contain.upper", not gross_hi.any(), f"value above the upper bound: raw={R[gross_hi][:3]} value={t_np[gross_hi][:3]} upper={H_[gross_hi][:3]}")
+    only_rounding = not gross_lo.any() and not gross_hi.any() and (bad_lo.any() or bad_hi.any())
+    if only_rounding:
+        b_ = bad_lo | bad_hi
+        ctx.check("contain.rounding", False, f"saturated value leaves the closed interval by rounding: raw={R[b_][:3]} value={t_np[b_][:3]!r} "
+                  f"bounds=[{L_[b_][:3]!r}, {H_[b_][:3]!r}]; check_raw(raw)={bool(chk_raw)}")
+    else:
+        ctx.check("check_raw.finite_raw", bool(chk_raw), f"check_raw refuses finite raw values {raws[:4]}")
+        if bool(np.isfinite(t_np).all()):
+            ctx.check("check.transformed", bool(chk), "check(transform(raw)) is False")
 
     # monotone (raws are sorted).  Slack: torch's softplus switches to the identity above its threshold 20 where
     # log1p(exp(20)) - 20 = 2.06e-9, i.e. a 1e-10 relative step down inside the dependency; the closed-form tolerance of
@@ -441,10 +452,17 @@ def discover_pairs(mod):
     return out
 
 
+BROKEN_RECIPES = {}  # recipe -> error text; reported as a violation by the construct-only cases of setter.roundtrip
+
+
 def _static_pairs():
     out = []
     for r in RECIPES:
-        m = build(r, [])
+        try:
+            m = build(r, [])
+        except Exception as e:  # noqa: BLE001 - the library refused its own default construction: judged at run time
+            BROKEN_RECIPES[r] = f"{type(e).__name__}: {e}"
+            continue
         for path, prop in discover_pairs(m):
             out.append((r, path, prop, None))
         for alias, opath, oprop in ALIASES.get(r, []):
@@ -459,6 +477,24 @@ def cons_bounds(cons, shape):
     if cons is None:
         return np.full(shape, -INF), np.full(shape, INF)
     return np.broadcast_to(_np(cons.lower_bound), shape), np.broadcast_to(_np(cons.upper_bound), shape)
+
+
+def readback_tol(ctx, name, got, want, lo, hi):
+    """value read back after an assignment: 1e-10 relative (DESIGN C17).  torch's softplus (the default transform of the
+    one-sided constraints, a dependency) is the identity above its threshold 20 although softplus(x) - x = log1p(exp(-x)) is
+    still 2.06e-9 there, so a value more than ~19 away from its finite bound comes back with an absolute error of up to 2.1e-9."""
+    want = np.asarray(want, float)
+    lo_b, hi_b = np.broadcast_to(lo, want.shape), np.broadcast_to(hi, want.shape)
+    one_sided = np.isfinite(lo_b) != np.isfinite(hi_b)
+    with np.errstate(invalid="ignore"):
+        off = np.where(np.isfinite(lo_b), want - lo_b, hi_b - want)
+    far = bool((one_sided & (off > 19)).any())
+    fin = [abs(float(v)) for v in (lo_b.reshape(-1)[:1].tolist() + hi_b.reshape(-1)[:1].tolist()) if math.isfinite(v)]
+    scale = max([1.0] + fin)
+    got = np.asarray(got, float)
+    if got.size == want.size and got.shape != want.shape and got.squeeze().shape == want.squeeze().shape:
+        got = got.reshape(want.shape)
+    return ctx.close(name, got, want, rtol=1e-10, atol=(2.5e-9 if far else 1e-12 * scale), scale=1.0)
 
 
 def make_value(form, shape, qs, lo, hi, uniform_bounds):
@@ -479,6 +515,8 @@ def make_value(form, shape, qs, lo, hi, uniform_bounds):
         form, small = "full", tuple(shape)
     if not small:
         small = (1,)
+    if not uniform_bounds and small[-1] != shape[-1]:  # tensor-valued bounds live on the last dimension: keep it
+        form, small = "full", tuple(shape)
     idx = tuple(slice(0, 1) if s == 1 and f != 1 else slice(None) for s, f in zip(small, shape[len(shape) - len(small):]))
     lo_s = lo[(0,) * (len(shape) - len(small)) + idx]
     hi_s = hi[(0,) * (len(shape) - len(small)) + idx]
@@ -512,6 +550,11 @@ def custom_constraint(spec, d):
 
 
 def run_setter(case, ctx: Ctx):
+    if case.get("construct_only"):
+        ctx.cls = f"{case['recipe']}|construct|batch{len(case['batch'])}"
+        with ctx.observing("construct"):
+            build(case["recipe"], case["batch"])
+        return
     recipe, batch, path, prop, alias = case["recipe"], case["batch"], case["path"], case["prop"], case.get("alias")
     batched = RECIPES[recipe][2]
     if not batched:
@@ -566,12 +609,9 @@ def run_setter(case, ctx: Ctx):
         setattr(target_obj, target_attr, obj)
         got = read()
         got_direct = _np(getattr(owner, prop))
-    # 1e-10 relative (DESIGN C17); atol for values next to a large-magnitude bound
-    fin = [abs(v) for v in (lo.reshape(-1)[:1].tolist() + hi.reshape(-1)[:1].tolist()) if math.isfinite(v)]
-    scale = max([1.0] + fin)
-    ctx.close("set.reads_back", got.reshape(shape) if got.size == want.size else got, want, rtol=1e-10, atol=1e-12, scale=scale)
+    readback_tol(ctx, "set.reads_back", got, want, lo, hi)
     if alias:
-        ctx.close("set.alias_consistent", got_direct, want, rtol=1e-10, atol=1e-12, scale=scale)
+        readback_tol(ctx, "set.alias_consistent", got_direct, want, lo, hi)
     ctx.label(f"pair={recipe}.{path + '.' if path else ''}{alias or prop}", f"form={form}", f"cons={ckind}{'*' if use_custom else ''}",
               f"batch={len(batch)}")
     ctx.set_nontrivial(bool(batch) or use_custom)
@@ -664,6 +704,9 @@ def setter_cases(draw):
 
 def enumerate_setter_pairs(tier):
     """every discovered pair x batch shape x value form once (so that no pair depends on being drawn)"""
+    for recipe in RECIPES:
+        for batch in ([], [2]):
+            yield {"recipe": recipe, "batch": batch, "construct_only": True}
     for recipe, path, prop, alias in PAIRS:
         for batch in ([], [2]):
             for form in ("float", "full"):
@@ -797,8 +840,7 @@ def run_history(case, ctx: Ctx):
                     else:
                         model.initialize(**{(f"{path}.{prop}" if path else prop): obj})
                     got = _np(getattr(owner, prop))
-                fin = [abs(v) for v in (lo.reshape(-1)[:1].tolist() + hi.reshape(-1)[:1].tolist()) if math.isfinite(v)]
-                ctx.close(f"{kind}.reads_back", got, want, rtol=1e-10, atol=1e-12, scale=max([1.0] + fin))
+                readback_tol(ctx, f"{kind}.reads_back", got, want, lo, hi)
             _frame(ctx, model, before, {full_raw}, where)
         elif kind == "step":
             params = [p for p in model.parameters()]
@@ -853,7 +895,7 @@ def run_history(case, ctx: Ctx):
                 with ctx.observing("sample_from_prior"):
                     owner.sample_from_prior(local)
                     got = _np(closure(owner))
-                ctx.close("sample.stored", got, want, rtol=1e-10, atol=1e-12)
+                readback_tol(ctx, "sample.stored", got, want, lo, hi)
                 ctx.label("sample=stored")
                 _frame(ctx, model, before, {n for n in before if not torch.equal(before[n], dict(model.named_parameters())[n].detach())
                                             and n.rsplit(".", 1)[0] == name.rsplit(".", 1)[0]}, where)
@@ -1276,7 +1318,16 @@ def run_closures(case, ctx: Ctx):
             if not ctx.check("closure.returns_tensor", isinstance(v, torch.Tensor), f"closure of {name} returns {type(v).__name__}, not the value"):
                 continue
             v_np = _np(v)
-            ctx.check("closure.matrix_shape", v_np.shape == tuple(batch) + (t, t), f"{v_np.shape}", kind="shape")
+            if not ctx.check("closure.matrix_shape", v_np.shape == tuple(batch) + (t, t), f"{v_np.shape}", kind="shape"):
+                continue
+            # the matrix the class documents: IndexKernel "B B^T + diag(v)"; MultitaskGaussianLikelihood: task_noise_covar
+            # (= factor factor^T) plus the global noise sigma^2 I
+            if isinstance(owner, K.IndexKernel):
+                Fm, dv = _np(owner.covar_factor), _np(owner.var)
+                ctx.close("closure.matrix_value", v_np, Fm @ np.swapaxes(Fm, -1, -2) + dv[..., None] * np.eye(t), rtol=1e-9, atol=1e-11)
+            elif isinstance(owner, L.MultitaskGaussianLikelihood):
+                Fm, nz = _np(owner.task_noise_covar_factor), _np(owner.noise)
+                ctx.close("closure.matrix_value", v_np, Fm @ np.swapaxes(Fm, -1, -2) + nz[..., None] * np.eye(t), rtol=1e-9, atol=1e-11)
             if kind == "corr":
                 ctx.close("closure.corr_unit_diagonal", np.diagonal(v_np, axis1=-2, axis2=-1), np.ones(tuple(batch) + (t,)), rtol=1e-9, atol=1e-9)
             with ctx.observing("closure.prior_term"):
@@ -1314,7 +1365,7 @@ def run_closures(case, ctx: Ctx):
             with ctx.observing("assign", reject=(ValueError,), reject_match="Invalid input value for prior"):
                 assign(v)
                 got = _np(closure(owner))
-            ctx.close("closure.returns_value", got, v, rtol=1e-10, atol=1e-12)
+            readback_tol(ctx, "closure.returns_value", got, v, lo, hi)
             with ctx.observing("closure.prior_term"):
                 lp = prior.log_prob(closure(owner))
             ctx.close("closure.prior_term", lp, ref_logprob(spec_run, v), rtol=1e-9, atol=1e-9)
@@ -1323,7 +1374,7 @@ def run_closures(case, ctx: Ctx):
                 with ctx.observing("setting_closure"):
                     setting(owner, torch.tensor(w))
                     got = _np(getattr(owner, prop))
-                ctx.close("setting_closure.stores", got, w, rtol=1e-10, atol=1e-12)
+                readback_tol(ctx, "setting_closure.stores", got, w, lo, hi)
         else:
             ctx.label("value=prior_support_disjoint_from_bounds")
         # ---- sample_from_prior
@@ -1348,8 +1399,8 @@ def run_closures(case, ctx: Ctx):
                 owner.sample_from_prior(local)
                 got, got_prop = _np(closure(owner)), _np(getattr(owner, prop))
             # softplus^-1 of a sample next to 0 loses relative accuracy in the *raw* value only; the value reads back to 1e-10
-            ctx.close("sample.stored", got, want, rtol=1e-10, atol=1e-12)
-            ctx.close("sample.property_reads_sample", got_prop, want, rtol=1e-10, atol=1e-12)
+            readback_tol(ctx, "sample.stored", got, want, lo, hi)
+            readback_tol(ctx, "sample.property_reads_sample", got_prop, want, lo, hi)
             ctx.label("sample=stored")
         elif bool(((want < lo) | (want > hi) | ~np.isfinite(want)).any()):
             expect_raises(ctx, "sample.oob_rejected", lambda: owner.sample_from_prior(local), RuntimeError, "out of bounds")
@@ -1498,19 +1549,40 @@ def mll_cases(draw):
     return case
 
 
-# ==== END ====
 
-RULE = "tbd"
+RULE = ("constraint cases = class x transform choice x scalar|tensor bounds x 2-6 raw doubles over the whole finite range (target: |raw|); "
+        "setter cases = (registry module, discovered property) x batch shape x constraint (default or generated via the constructor) x value "
+        "form; histories = op lists (set / initialize / initialize raw / optimiser step with lr up to 1e290 / sample_from_prior) over 3 "
+        "composite models; prior cases = prior class x generated parameters x points x transform=; closure cases = every *_prior constructor "
+        "argument x batch x prior. Non-trivial: |raw| > 30 or tensor-valued bounds (constraints); batch-shaped or custom-constrained "
+        "parameter (setters); >= 2 op kinds (histories); transform / batched parameters / matrix-valued prior (densities); batch-shaped "
+        "module, parameter-shaped prior or matrix prior (closures); >= 2 priors or batch (MLL term). distinct = distinct canonical case.")
+
 SPEC = PropertySpec(
     pid="C17",
     rule=RULE,
-    assumptions=[],
+    assumptions=[
+        "float64; CPU; no pyro (pyro_sample_from_prior / pyro_load_from_samples not exercised)",
+        "bounds |b| <= 1e3, widths in [1e-3, 1e3]; inverse(transform(raw)) asserted for |raw| <= 10 with the rounding of the constrained "
+        "value amplified by 1/slope added to the 1e-9 tolerance; monotonicity up to the closed-form tolerance (torch's softplus threshold)",
+        "transform=torch.exp: finiteness demanded only for |raw| <= 700 (overflow to inf lies in the closed extended interval)",
+        "a plain float assigned through a setter is judged only where the setter is annotated to take one (or accepts it); "
+        "ConstantKernel.constant is assigned full-size tensors only (its setter documents a tensor of the parameter's size)",
+        "SmoothedBoxPrior reference = flat box with Gaussian tails of s.d. sigma, normalised (what `_M` 'normalization factor' and the "
+        "tails attribute state; the docstring's exponent 'd^2 / sqrt(2 sigma^2)' is taken as a typo); LKJ reference = LKJ (2009) density of "
+        "the Cholesky factor; LKJCovariancePrior with SmoothedBoxPrior s.d. prior (the documented usage); Wishart/InverseWishart = scipy "
+        "(InverseWishart df = nu + n - 1)",
+        "not asserted: Interval.intersect (raises for any two distinct objects - bound-method comparison - reported separately), "
+        "SpectralMixtureKernel *_prior arguments (logged as not implemented), MultitaskGaussianLikelihood(rank=0, task_prior) (documented error)",
+    ],
     subchecks=[
         Subcheck("constraint.transform", run_constraint, strategy=constraint_cases, quick=8000, thorough=200000, min_shard=200),
-        Subcheck("setter.roundtrip", run_setter, strategy=setter_cases, enumerate=enumerate_setter_pairs, quick=5000, thorough=100000, min_shard=100),
+        Subcheck("setter.roundtrip", run_setter, strategy=setter_cases, enumerate=enumerate_setter_pairs, quick=5000, thorough=100000,
+                 min_shard=100, exhaustive_note="every discovered (module, property) pair x batch shape {(), (2,)} x {float, full tensor} once"),
         Subcheck("history.bounds", run_history, strategy=history_cases, quick=1500, thorough=40000, min_shard=50),
         Subcheck("prior.log_prob", run_prior_logprob, strategy=prior_logprob_cases, quick=4000, thorough=100000, min_shard=100),
-        Subcheck("prior.closures", run_closures, strategy=closure_cases, enumerate=enumerate_closures, quick=1500, thorough=40000, min_shard=50),
+        Subcheck("prior.closures", run_closures, strategy=closure_cases, enumerate=enumerate_closures, quick=1500, thorough=40000,
+                 min_shard=50, exhaustive_note="every *_prior constructor argument of every registry class x batch {(), (2,)} x 8 prior classes x {scalar, parameter-shaped} prior once"),
         Subcheck("prior.mll_term", run_mll_term, strategy=mll_cases, quick=600, thorough=15000, min_shard=40),
     ],
 )
